@@ -296,6 +296,29 @@ func genC12(r *gen.Rng, tier string, emit func(string)) {
 		p := r.PDU(t, gen.Unconstrained)
 		emit("marshal " + pduLine(p))
 	}
+	// all-or-nothing across calls: a value Marshal must refuse AFTER it has begun to encode (positive sequence number,
+	// status 0, then an oversize message / TLV / header element / destination list) followed at once by a small valid PDU
+	for i := 0; i < scale(tier, 60, 600); i++ {
+		var bad interface{}
+		seq := int32(r.Range(1, 1<<30))
+		switch r.Intn(4) {
+		case 0:
+			bad = &pdu.SubmitSM{Header: pdu.Header{Sequence: seq}, ServiceType: "abc", Message: pdu.ShortMessage{Message: r.Bytes(r.Range(141, 300))}}
+		case 1:
+			bad = &pdu.DataSM{Header: pdu.Header{Sequence: seq}, ServiceType: "abc", Tags: pdu.Tags{0x0424: make([]byte, 0x10000)}}
+		case 2:
+			bad = &pdu.DeliverSM{Header: pdu.Header{Sequence: seq}, ESMClass: pdu.ESMClass{UDHIndicator: true},
+				Message: pdu.ShortMessage{UDHeader: pdu.UserDataHeader{0x24: r.Bytes(256)}}}
+		default:
+			m := &pdu.SubmitMulti{Header: pdu.Header{Sequence: seq}, ServiceType: "abc"}
+			for k := 0; k < 256; k++ {
+				m.DestAddrList.DistributionList = append(m.DestAddrList.DistributionList, "d")
+			}
+			bad = m
+		}
+		emit("marshal " + pduLine(bad))
+		emit("marshal " + pduLine(&pdu.EnquireLink{Header: pdu.Header{Sequence: int32(r.Range(1, 1000))}}))
+	}
 }
 
 // C13: re-encoding of accepted (also non-canonical) frames; determinism over map order.
